@@ -262,6 +262,11 @@ def realise(unit, element, word, rules, same_id=None, prefix=None, unregister=Fa
             _Node.store.pop(c.id, None)
         return c
     p = parent_for(unit, element, rules)
+    if same_id and isinstance(p.content, str) and p.content and set(rules[unit][2].get("content_rules", [])) <= {"strContent", "nonEmptyContent", "anyContent"} \
+            and "content_enum" not in rules[unit][2]:
+        # hostile pass: where the rule takes any non-empty text, the parent's own text is whitespace only (an XML import keeps
+        # such text) - membership of the child sequence is a matter of the children, not of the parent's text
+        p.content = [" ", "\n    ", "\t", "\u00a0 "][len(word) % 4]
     for i, a in enumerate(word):
         if a == FOREIGN:
             nm = HOSTILE_FOREIGN_NAMES[i % len(HOSTILE_FOREIGN_NAMES)] if same_id else FOREIGN_NAME
